@@ -26,6 +26,7 @@ type Invocation struct {
 // ProbeProvider is a scripted tacquito.SecretProvider: it binds each simulated
 // connection (by remote address string) to a key and a scripted probe handler.
 type ProbeProvider struct {
+	ring, ringOrig []byte
 	w     *world.World
 	mu    sync.Mutex
 	byKey map[string]*probeConn
@@ -54,12 +55,18 @@ func NewProbeProvider(w *world.World, clients []plan.ClientSpec) *ProbeProvider 
 		ring = append(ring, clients[i].SrvKey...)
 	}
 	ring = append(ring, 0, 0, 0, 0)
+	p.ring = ring
+	p.ringOrig = append([]byte(nil), ring...)
 	for i := range clients {
 		c := &clients[i]
 		p.byKey[AddrOf(c, i).String()] = &probeConn{w: w, conn: i + 1, spec: c, key: ring[offs[i][0]:offs[i][1]]}
 	}
 	return p
 }
+
+// KeysIntact reports whether the key material handed to the server is still what the
+// provider holds: the server must treat secrets as read-only.
+func (p *ProbeProvider) KeysIntact() bool { return bytes.Equal(p.ring, p.ringOrig) }
 
 // AddrOf returns the net.Addr a client presents. Addresses are made unique per client
 // by the generator; a missing address gets a synthetic one.
